@@ -860,6 +860,24 @@ func c08pair(c *Ctx, x, y *c08tree, full, presentations bool) {
 	}
 }
 
+// c08caterpillar: a caterpillar on n taxa whose labels at distance shift are swapped in every third position.
+func c08caterpillar(n, shift int) *rm.Tree {
+	perm := make([]int, n)
+	for j := range perm {
+		perm[j] = j
+	}
+	for j := 0; j+shift < n; j += 3 {
+		perm[j], perm[j+shift] = perm[j+shift], perm[j]
+	}
+	lab := func(j int) *rm.Node { return &rm.Node{Name: fmt.Sprintf("t%02d", perm[j])} }
+	cur := &rm.Node{Children: []*rm.Node{lab(0), lab(1)}}
+	for j := 2; j < n-1; j++ {
+		cur = &rm.Node{Children: []*rm.Node{cur, lab(j)}}
+	}
+	cur.Children = append(cur.Children, lab(n-1))
+	return &rm.Tree{Root: cur}
+}
+
 // c08foreign: trees whose taxon set differs from labels.
 func c08foreign(labels []string, withLarger bool) []string {
 	var out []string
@@ -1050,6 +1068,28 @@ func init() {
 						c.Sample(ts[i].a[0] + " vs " + ts[j].b[0])
 						c.Pin(func() string { return ts[i].a[0] + " vs " + ts[j].a[0] })
 						c08pair(c, &ts[i], &ts[j], n <= 5, true)
+					}
+				}
+			}
+			// a few larger pairs (plain executions, not exhaustive): label-shifted caterpillars on 12 and 40 taxa,
+			// every unordered pair, every operation and flag combination; rooted presentations for 12 taxa only
+			if c.Shard == 0 {
+				for _, n := range []int{12, 40} {
+					var big []*rm.Tree
+					for _, shift := range []int{0, 1, 2, 5} {
+						big = append(big, c08caterpillar(n, shift))
+					}
+					ts := c08prepare(big)
+					for i := range ts {
+						for j := i; j < len(ts); j++ {
+							if c.TimeUp() {
+								return
+							}
+							c.States++
+							c.Count("large_pairs", 1)
+							c.Pin(func() string { return ts[i].a[0] + " vs " + ts[j].a[0] })
+							c08pair(c, &ts[i], &ts[j], false, n <= 12)
+						}
 					}
 				}
 			}
